@@ -30,17 +30,30 @@ CFG = {
             "5 probe operators whose acceptance pattern identifies the node} = 4440 cases, state reached by the shortest prefix; "
             "random: n Figure-9 walks (<=20 instances, spec automaton, text-heavy bias, BX/EX sections with unknown operators, arbitrary "
             "operands: numbers up to 18+18 digits, names, nested/escaped literal strings, hex strings, arrays, dictionaries, random "
-            "white space/comments) + n single-step deviations (operator replaced/inserted/dropped, operand dropped/added/replaced/rotated, "
+            "white space/comments; one number in four drawn from a pool of boundary spellings - zeros as 0 -0 0.0 .0 0. 00 . -. , i32/u32 "
+            "boundaries, longest spellings; Td TD Tm Tc Tw Tz TL Ts Tr get the operands the standard prescribes every other time) + n single-step deviations (operator replaced/inserted/dropped, operand dropped/added/replaced/rotated, "
             "text-showing operator with arbitrary operands) + n raw streams (a deviated stream truncated or with one byte damaged; "
             "correspondence only, oracle skips). Oracle = Fig9.expected on the syntax tree carried by the case (checked: tree well-formed "
             "and renders to exactly the stream). "
+            "OPERAND-VALUE SWEEP (kind `opv`, both tiers, corpus operand_values.case): every operator with numeric operands whose effect on the token "
+            "list is documented - Td TD Tm T* (line moves: one separator token for Td TD T*, whatever the operands), Tc Tw Tz TL Tf Tr Ts, ' \" - with "
+            "operands from a boundary set of 71 SPELLINGS (14 zeros: 0 -0 0.0 .0 0. 00 -0.00 -.0 . -. ... - some lex to the integer 0, some to a "
+            "real; small values and integer-valued reals 1.0 1. 01; i32/u32/i64/u64/i128 boundaries with neighbours, as integers and as `N.`/`N.0`; "
+            "18+18, 38, 39, 40 digits, 38/39 fraction digits): all-equal tuples, every value in every position over a base of 0s resp. 1s, a "
+            "different zero spelling in every position, all pairs of 15 core values (two-operand operators), operand count off (0, k-1, k+1, 2k+1 "
+            "zeros), another operand kind in one numeric position, `+0 +1 +.5 +0.0` (a `+` makes an unknown-operator token); each instance placed "
+            "between two shown strings, at the start / at the end of a text object, alone, twice in a row, inside BX..EX, and (text state) at page "
+            "level (quick: the position sweep in 2 and the pairs in 3 of the 7 placements, thorough: all). Oracle: Fig9.expected of the tree, "
+            "compared EXACTLY (separator tokens are never collapsed); numbers in front of an operator may exceed the 18+18 digits of Fig9.numOK "
+            "(judge-side `numWide`); only a number of more than 38 digits (10^38-1 < 2^127) allows the answer err instead (implementation limit). "
+            "Quick 11499 cases + 13848 view twins, thorough 20340 + 24503. "
             "VIEW TWINS (Driver/Views.lean, corpus views.case): EVERY case above (table, walk, dev, raw) runs a second time as `vw <steps> <pre> <suf> <case>` - the stream is a window strictly inside ONE larger allocation "
             "pre ++ window ++ suf, selected by a chain of RestrictView / RestrictViewFrom steps (the harness checks that the view shows exactly the window), and TextExtractor::parse runs on that view (the extractor's buffer); "
             "bytes in front of the window cycled over 1, 7, 11, 2, 0, 13, 1000, 64, 5, 3 of them (header-like text with complete objects, or random bytes; period 16) x chain of restrictions (RestrictView; RestrictViewFrom; From then View; View then View with junk on both sides of the inner window; View then From; a View from 0 then From; three deep; period 7) x what lies behind the window (period 5). The extractor's output carries no offsets, so the unchanged code answers exactly what it answers on the plain case; model and oracle are computed from the window's bytes alone (model of a view = model of its "
             "window: Parsley.C17.view_refines_copy); classes of rejected view cases carry the prefix `view-`. What lies behind the window continues the stream: behind a truncated stream the rest of it, otherwise more operands and "
             "text-showing operators (` (more) Tj`, `) Tj ET`, `j`, `*`, `] TJ`, a whole text object); one random structured case in five gets a further twin whose window ENDS AFTER AN EARLIER INSTRUCTION (expected: Fig9.expected of that shorter "
             "program; the remaining instructions lie behind the view). CUT family (view only): a fixed text-heavy program + 7 (thorough 59) random walks over known operators, cut at EVERY byte, the rest behind the window: the extractor must "
-            "answer err or tokens that are a prefix of Fig9.expected of the whole program (`cut-unsound`). Per tier: quick 8940 ordinary + 9390 view twins + 645 cuts, thorough 184440 + 202958 + 4710. "
+            "answer err or tokens that are a prefix of Fig9.expected of the whole program (`cut-unsound`). Per tier (without the operand-value sweep): quick 8940 ordinary + 9394 view twins + 779 cuts, thorough 184440 + 202950 + 4639. "
             "non-trivial = structured case with >= 2 operator instances (a view case counts when there are bytes in front of or behind the window)",
     "trusted_base": COMMON_TB + [
         "harness c12 extract: serialisation of the real OPERATORS const into Parsley/Gen/Operators.lean (name bytes, Debug names of OpType/ArgType)",
@@ -49,7 +62,8 @@ CFG = {
         "BTreeMap opinfo as last-match lookup; std::str::from_utf8 as a hand-written validator",
         "Spec/Fig9.lean `Prog.ok`/`render`: the class of streams the theorems quantify over (atoms, arrays and dictionaries of atoms - no nested "
         "arrays/dictionaries, no `#` escapes in names/operators, numbers of at most 18+18 digits without `+`, complete comments); "
-        "streams outside that class are covered by the correspondence run only",
+        "streams outside that class are covered by the correspondence run only - except numbers of more than 18+18 digits written directly in "
+        "front of an operator, which the judge of the operand-value sweep admits (Driver/C12.lean numWide/okWide; expected tokens still Fig9.expected)",
     ],
     "assumptions": [
         "fresh PDFObjContext per content stream with max_depth >= 1, unrestricted ParseBuffer (views: C17)",
